@@ -50,9 +50,11 @@ def xmd_case(a):
 def task_xmd(a, env):
     hn = a["h"]
     r = R("expand_message_xmd:%s" % hn)
+    d_ = hashlib.new(hn).digest_size
     for lm in a["lms"]:
-        for ld in a["lds"]:
-            for n in a["ns"]:
+        long_msg = lm > 5000  # long messages: the boundary subset of tags / lengths only
+        for ld in (a["lds"] if not long_msg else [0, 32, 255, 256]):
+            for n in (a["ns"] if not long_msg else [0, 1, d_, 2 * d_ + 1, 255 * d_, 255 * d_ + 1]):
                 c = {"h": hn, "lm": lm, "ld": ld, "n": n}
                 exp, got = xmd_case(c)
                 r.ev += 1
@@ -63,7 +65,7 @@ def task_xmd(a, env):
                         d = hashlib.new(hn).digest_size
                         cls = "bytes-differ:blocks%s" % ("<=4" if n <= 4 * d else ">4")
                     r.viol("C15:xmd:%s:%s" % (hn, cls), ME + ":replay", dict(c, f="xmd"), exp, got)
-        r.dn += len(a["lds"]) * len(a["ns"])
+        r.dn += (len(a["lds"]) * len(a["ns"])) if lm <= 5000 else 24
     if a.get("sample"):
         r.sample({"hash": hn, "msg_len": a["lms"][:4], "tag_len": a["lds"], "out_len": a["ns"][:5] + a["ns"][-5:]})
     return r
@@ -163,8 +165,9 @@ def run(ctx):
     q = ctx.quick
     hashes = HASHES
     lms_q = [0, 1, 31, 32, 33, 55, 56, 63, 64, 65, 111, 112, 119, 120, 127, 128, 129, 135, 136, 137, 255, 256,
-             1000, 4096]
-    lms = lms_q if q else list(range(0, 131)) + [135, 136, 137, 143, 144, 145, 191, 192, 255, 256, 257, 1000, 4096]
+             1000, 4096, 65535, 65536, 70001]
+    lms = lms_q if q else list(range(0, 131)) + [135, 136, 137, 143, 144, 145, 191, 192, 255, 256, 257, 1000, 4096,
+                                                  65535, 65536, 70001, 200000]
     lds = [0, 1, 2, 31, 32, 33, 254, 255, 256, 300]
     ctx.bounds = {"hashes": hashes, "message_lengths": len(lms), "tag_lengths": lds,
                   "output_lengths": "0..3*digest+1, 255*digest-1..+1, 65535, 65536"}
